@@ -205,6 +205,20 @@ func guidTextLE(sig []byte) string {
 func genOption(c *Ctx) Case {
 	descs := []string{"", "x", "Linux Boot Manager", "UEFI: é\U0001F600 disk", "Windows Boot Manager"}
 	desc := descs[c.Rng.Intn(len(descs))]
+	if c.Rng.Intn(3) == 0 {
+		// arbitrary descriptions: random scalar values from the classes whose UTF-16 code units have a
+		// zero low or high byte (U+0100, U+4E00, Latin-1), other BMP, and non-BMP characters; no NUL
+		pool := []rune{'a', 'Z', ' ', 0xe9, 0xff, 0x100, 0x200, 0x4e00, 0x4e01, 0x3042, 0xfffd, 0xd7ff, 0xe000, 0x1f600, 0x10000, 0x10ffff}
+		rs := make([]rune, c.Rng.Intn(12))
+		for i := range rs {
+			if c.Rng.Intn(4) == 0 {
+				rs[i] = rune(1 + c.Rng.Intn(0xd7ff))
+			} else {
+				rs[i] = pool[c.Rng.Intn(len(pool))]
+			}
+		}
+		desc = string(rs)
+	}
 	var nodes, want []string
 	n := c.Rng.Intn(6)
 	u8 := func() int { return c.Rng.Intn(256) }
@@ -244,7 +258,7 @@ func genOption(c *Ctx) Case {
 			nodes = append(nodes, s)
 			want = append(want, s+":text="+hx([]byte(strings.ToLower(text))))
 		case 3:
-			paths := []string{"\\EFI\\systemd\\systemd-bootx64.efi", "\\EFI\\BOOT\\BOOTX64.EFI", "a", "\\é\\\U0001F600.efi", ""}
+			paths := []string{"\\EFI\\systemd\\systemd-bootx64.efi", "\\EFI\\BOOT\\BOOTX64.EFI", "a", "\\é\\\U0001F600.efi", "", "a\u0100b\u4e00", "\\EFI\\" + strings.Repeat("long-directory-name\\", 8) + "x.efi"}
 			p := paths[c.Rng.Intn(len(paths))]
 			l := 4 + 2*len([]rune(p)) + 2
 			s := fmt.Sprintf("file:0404%02x%02x:%s", l&255, l>>8, hx([]byte(p)))
@@ -303,7 +317,7 @@ func c18Gen(c *Ctx) {
 
 func init() {
 	register("C18", &PropDef{
-		Rule:   "all 65536 boot numbers (exhaustive), each resolved through GetBootEntry on an in-memory store holding the firmware-named variable; boot orders of 0..64 entries; the captured Boot#### variables of tests/data/boot; generated load options of 0..5 nodes over PCI, ACPI, hard-drive (signature types GPT, MBR, none and arbitrary, with an equal or a different partition-format byte; partition numbers incl. 0), file-path (ASCII, non-BMP, empty), firmware-file and USB nodes with arbitrary field values and five descriptions, encoded by the independent Spec encoder. Non-trivial: a non-empty order / an option longer than the minimal one; distinct = distinct cases.",
+		Rule:   "all 65536 boot numbers (exhaustive), each resolved through GetBootEntry on an in-memory store holding the firmware-named variable; boot orders of 0..64 entries; the captured Boot#### variables of tests/data/boot; generated load options of 0..5 nodes over PCI, ACPI, hard-drive (signature types GPT, MBR, none and arbitrary, with an equal or a different partition-format byte; partition numbers incl. 0), file-path (ASCII, non-BMP, empty), firmware-file and USB nodes with arbitrary field values, five fixed descriptions and random descriptions (Latin-1, code units with a zero low byte such as U+0100 and U+4E00, other BMP, non-BMP), encoded by the independent Spec encoder. Non-trivial: a non-empty order / an option longer than the minimal one; distinct = distinct cases.",
 		Assume: []string{"load options handed to the in-process decoder are complete (truncated ones end the process on the unrepaired tree and are C14's domain)"},
 		Eval:   c18Eval, Gen: c18Gen,
 	})
